@@ -128,6 +128,8 @@ func (vt *Model) decset(params [][]int) {
 			vt.decsc()
 			vt.activeScreen = vt.altScreen
 			vt.mode.smcup = true
+			// The alternate screen starts out cleared
+			vt.ed(2)
 			// Enable altScroll in the alt screen. This is only used
 			// if the application doesn't enable mouse
 			vt.mode.altScroll = true
